@@ -68,6 +68,7 @@ type w9Get struct {
 	h        *requestHandler
 	qb       *queryBuilder
 	beginSeq uint64
+	initSeq  uint64 // first observation after the Get passed the request-start memory wait and looked its bucket up
 	endSeq   uint64
 	done     bool // written by the task goroutine
 	judged   bool
@@ -117,6 +118,8 @@ type w9World struct {
 	lim    cache2Limits
 	faulty bool
 	tolerate map[string]bool
+	afterNotifyArmed bool
+	deferred *verifsim.Violation // first stale read of one of the two narrowly identified mechanisms (reported only if nothing else fails)
 	anyFailedLoad bool
 	rowB   int
 }
@@ -319,6 +322,11 @@ func (w *w9World) accounting() (ok bool, empty bool, what string) {
 
 func (w *w9World) observe() {
 	r := w.r
+	for _, g := range w.gets {
+		if g.initSeq == 0 && g.qb.cacheKey != "" {
+			g.initSeq = r.Seq()
+		}
+	}
 	w.mu.Lock()
 	nl := w.newLoads
 	w.newLoads = nil
@@ -471,25 +479,67 @@ func (w *w9World) judge(g *w9Get) {
 				continue
 			}
 			if iv.seen && iv.completeSeq < g.beginSeq {
-				sig, how := "cached-load", "the rows were in the chunk before the invalidation and the invalidation did not make the Get reload them"
-				switch {
-				case ld.storedSeq == 0 || ld.storedSeq > g.beginSeq:
-					sig, how = "awaiter-of-finished-load", "the load's goroutine stood between notifying its own requester and updating the chunk (cache2.load.after_notify) while the invalidation ran and the Get began, so the Get became an awaiter of the finished load"
-				case ld.storedSeq > iv.startSeq:
-					sig, how = "stale-store-after-invalidation", "the chunk update of the finished load ran after the invalidation (goroutine parked at cache2.load.after_notify) and left the chunk marked clean"
-				}
-				if w.tolerate[sig] || w.tolerate["all"] { // exploration aid only: look past findings recorded for the pinned tree
+				sig, how, precise := w.classifyStale(g, ld, iv, t)
+				if w.tolerate[sig] || w.tolerate["all"] { // debugging aid only (W9_TOLERATE_STALE)
 					r.Probe("TOLERATED_stale_after_invalidation_" + sig)
 					continue
 				}
-				r.Fail("C23", "stale_after_invalidation", sig,
-					"Get #%d (q=%d step=%d, began at seq %d) slot time %d holds rows of load %d which finished at seq %d, before invalidation %d of that slot (seq %d..%d) that completed before the Get began; %s",
-					g.id, g.q, g.step, g.beginSeq, t, lid, ld.finishSeq, iv.id, iv.startSeq, iv.completeSeq, how)
+				detail := fmt.Sprintf("Get #%d (q=%d step=%d, began at seq %d, looked its bucket up by seq %d) slot time %d holds rows of load %d which finished at seq %d (chunk update by seq %d), before invalidation %d of that slot (seq %d..%d) that completed before the Get began; %s",
+					g.id, g.q, g.step, g.beginSeq, g.initSeq, t, lid, ld.finishSeq, ld.storedSeq, iv.id, iv.startSeq, iv.completeSeq, how)
+				if precise {
+					// one of the two mechanisms recorded for the pinned tree: remember the first one and go
+					// on, so that a run which also shows any other failure reports that other failure
+					r.Probe("stale_read_" + sig)
+					if w.deferred == nil {
+						w.deferred = &verifsim.Violation{Property: "C23", Clause: "stale_after_invalidation", Sig: sig, Detail: detail}
+					}
+					continue
+				}
+				r.Fail("C23", "stale_after_invalidation", sig, "%s", detail)
 				return
 			}
 			r.Probe("old_rows_served_while_invalidation_in_progress")
 		}
 	}
+}
+
+// classifyStale names the mechanism of a stale read from the recorded sequence numbers. Two
+// mechanisms are identified narrowly (precise=true); everything else keeps a generic sig.
+func (w *w9World) classifyStale(g *w9Get, ld *w9Load, iv *w9Inv, t int64) (sig, how string, precise bool) {
+	pendingAtInit := ld.storedSeq == 0 || ld.storedSeq > g.initSeq
+	// A: the Get was handed the rows as an awaiter: they cannot have been in the chunk when it
+	// looked the chunk up, because the serving load's chunk update had not run yet; that load's loader
+	// had returned before the invalidation began, so its goroutine stood at cache2.load.after_notify
+	if ld.id != g.id && w.afterNotifyArmed && g.initSeq != 0 && pendingAtInit {
+		return "awaiter-of-finished-load", "the serving load's goroutine stood between notifying its own requester and updating the chunk (cache2.load.after_notify) while the invalidation ran and the Get looked the chunk up, so the Get became an awaiter of the finished load", true
+	}
+	if !pendingAtInit {
+		// plain cache hit. B: a second load L1 over the same chunk started after the invalidation while
+		// L0's chunk update was pending (it restamps the shared chunk.loadStartedAt), and L0's update ran
+		// after L1's update (or L1 failed, or L1's update is still pending)
+		for _, id := range w.loadIDs {
+			l1 := w.loads[id]
+			if l1 == ld || l1.q != ld.q || l1.step != ld.step || t < l1.from || t >= l1.to {
+				continue
+			}
+			if !(l1.startSeq > iv.completeSeq && l1.startSeq < ld.storedSeq) {
+				continue
+			}
+			switch {
+			case l1.finished && l1.err != nil:
+				return "stale-store-after-second-load-restamp", fmt.Sprintf("load %d over the same chunk started at seq %d, after the invalidation and before load %d's pending chunk update, restamped the chunk's shared loadStartedAt and then failed; load %d's update then stored its rows and cleared the invalidation mark", l1.id, l1.startSeq, ld.id, ld.id), true
+			case l1.storedSeq != 0 && l1.storedSeq < ld.storedSeq:
+				return "stale-store-after-second-load-restamp", fmt.Sprintf("load %d over the same chunk started at seq %d, after the invalidation and before load %d's pending chunk update, restamped the chunk's shared loadStartedAt; its update (seq %d) cleared the invalidation mark and load %d's later update (seq %d) overwrote the chunk with the older rows", l1.id, l1.startSeq, ld.id, l1.storedSeq, ld.id, ld.storedSeq), true
+			case l1.storedSeq == 0 || l1.storedSeq > g.initSeq:
+				return "stale-store-after-second-load-restamp", fmt.Sprintf("load %d over the same chunk started at seq %d, after the invalidation and before load %d's pending chunk update, restamped the chunk's shared loadStartedAt; load %d's update then stored its rows and cleared the invalidation mark (load %d's own update still pending)", l1.id, l1.startSeq, ld.id, ld.id, l1.id), true
+			}
+		}
+		if ld.storedSeq > iv.startSeq {
+			return "stale-store-after-invalidation", "the chunk update of the finished load ran after the invalidation began and left the chunk marked clean (no second load restamped the chunk)", false
+		}
+		return "cached-load", "the rows were in the chunk before the invalidation and the invalidation did not make the Get reload them", false
+	}
+	return "stale-rows-other", "the rows were not in the chunk when the Get looked it up, and the awaiter mechanism is not proven", false
 }
 
 // ---- actions ----------------------------------------------------------------------------
@@ -619,6 +669,12 @@ func (w *w9World) drawLimits() {
 func (w *w9World) agedTrim() {
 	r, c := w.r, w.c
 	d := []time.Duration{time.Millisecond + 137, 50*time.Millisecond + 137, 2*time.Second + 137}[c.Intn(3, "max_age")]
+	for _, tk := range w.pts.Parked() {
+		if strings.HasPrefix(tk.Name, "cache2.trim.") {
+			r.Probe("aged_trim_skipped_trim_goroutine_parked")
+			return
+		}
+	}
 	size, _, _, _ := w.memState()
 	if size <= 0 {
 		r.Probe("aged_trim_skipped_cache_empty")
@@ -702,7 +758,9 @@ func w9Run(t *testing.T, r *verifsim.Run) {
 	useReset := c.Intn(2, "use_reset") == 1
 	useAged := c.Intn(2, "use_aged") == 1
 	hooks := c.Intn(4, "hooks")
-	armed := map[string]bool{"cache2.load.after_notify": hooks&1 != 0, "cache2.invalidate.before": hooks&2 != 0}
+	trimHooks := c.Intn(4, "trim_hooks")
+	armed := map[string]bool{"cache2.load.after_notify": hooks&1 != 0, "cache2.invalidate.before": hooks&2 != 0,
+		"cache2.trim.before_reduce": trimHooks&1 != 0, "cache2.trim.before_aged": trimHooks&2 != 0}
 	if os.Getenv("W9_DISARM_AFTER_NOTIFY") != "" {
 		// exploration aid (sensitivity tests): both findings on the pinned tree need a goroutine parked
 		// at cache2.load.after_notify; without that point the unchanged tree is expected to pass
@@ -719,6 +777,8 @@ func w9Run(t *testing.T, r *verifsim.Run) {
 	r.Config["reset"] = useReset
 	r.Config["aged_trim"] = useAged
 	r.Config["hooks"] = hooks
+	r.Config["trim_hooks"] = trimHooks
+	w.afterNotifyArmed = armed["cache2.load.after_notify"]
 	r.Config["ops"] = ops
 
 	w.hnd = &Handler{HandlerOptions: HandlerOptions{location: time.UTC, utcOffset: utc}}
@@ -972,6 +1032,9 @@ func (w *w9World) windDown(check bool) {
 		r.Probe("cache_empty_after_shutdown")
 	} else {
 		r.Probe("zero_byte_buckets_left_after_shutdown")
+	}
+	if d := w.deferred; d != nil && !r.Failed() {
+		r.Fail(d.Property, d.Clause, d.Sig, "%s", d.Detail)
 	}
 }
 
